@@ -17,7 +17,7 @@ use crate::{
 /// name and the variables. The names are all in `camelCase` (e.g.
 /// `operationName`).
 #[non_exhaustive]
-#[derive(Serialize, Deserialize)]
+#[derive(Serialize)]
 #[serde(rename_all = "camelCase")]
 pub struct Request {
     /// The query source of the request.
@@ -53,6 +53,56 @@ pub struct Request {
     /// [IntrospectionMode::Enabled]).
     #[serde(skip)]
     pub introspection_mode: IntrospectionMode,
+}
+
+/// The members of a request that are read from the wire.
+#[derive(Deserialize)]
+#[serde(rename_all = "camelCase")]
+struct RequestFields {
+    #[serde(default)]
+    query: String,
+    #[serde(default, rename = "operationName")]
+    operation_name: Option<String>,
+    #[serde(default)]
+    variables: Variables,
+    #[serde(default)]
+    extensions: Extensions,
+}
+
+// A request is an object. The derived implementation would also accept a
+// sequence and read the members by position, so that `[]` (documented as an
+// invalid batch) or `["{ a }"]` would be taken for a single request.
+impl<'de> Deserialize<'de> for Request {
+    fn deserialize<D: Deserializer<'de>>(deserializer: D) -> Result<Self, D::Error> {
+        struct ObjectVisitor;
+
+        impl<'de> serde::de::Visitor<'de> for ObjectVisitor {
+            type Value = RequestFields;
+
+            fn expecting(&self, f: &mut Formatter<'_>) -> fmt::Result {
+                f.write_str("a GraphQL request object")
+            }
+
+            fn visit_map<A: serde::de::MapAccess<'de>>(
+                self,
+                map: A,
+            ) -> Result<Self::Value, A::Error> {
+                RequestFields::deserialize(serde::de::value::MapAccessDeserializer::new(map))
+            }
+        }
+
+        let fields = deserializer.deserialize_map(ObjectVisitor)?;
+        Ok(Self {
+            query: fields.query,
+            operation_name: fields.operation_name,
+            variables: fields.variables,
+            uploads: Vec::new(),
+            data: Data::default(),
+            extensions: fields.extensions,
+            parsed_query: None,
+            introspection_mode: IntrospectionMode::default(),
+        })
+    }
 }
 
 impl Request {
